@@ -425,11 +425,14 @@ func (*Ufs) Open(req *SrvReq) {
 	}
 
 	// a file left by an earlier Topen/Tcreate that did not take effect
-	// (cancelled by a Tversion, or failed after opening) is not forgotten
+	// (cancelled by a Tversion, or failed after opening) is not forgotten;
+	// a directory read pipelined behind that Topen may be listing it
+	fid.dirlock.Lock()
 	if fid.file != nil {
 		_ = fid.file.Close()
 	}
 	fid.file = file
+	fid.dirlock.Unlock()
 	req.RespondRopen(dir2Qid(fid.st), 0)
 }
 
@@ -515,10 +518,12 @@ func (*Ufs) Create(req *SrvReq) {
 	}
 
 	fid.path = path
+	fid.dirlock.Lock()
 	if fid.file != nil {
 		_ = fid.file.Close()
 	}
 	fid.file = file
+	fid.dirlock.Unlock()
 	err = fid.stat()
 	if err != nil {
 		req.RespondError(err)
